@@ -22,6 +22,7 @@ type C04Plan struct {
 	TwoStores bool      `json:"two_stores"`
 	Swap      bool      `json:"swap"`
 	EmptySide string    `json:"empty_side,omitempty"` // "", "first", "second", "both"
+	Fault     *Fault    `json:"fault,omitempty"`      // one transient read error during the diff
 }
 
 func genRowEdits(r *Rand, cols []string, pk []string, nrows int, maxEdits int) []Edit {
@@ -96,6 +97,9 @@ func init() {
 			nrows := 0
 			if r.Chance(0.35) {
 				s := SynthSpec{N: Pick(r, []int{254, 255, 256, 300, 510, 511, 600, 800, 1021}), NCols: r.Range(2, 4), Seed: r.Uint64()}
+				if r.Chance(0.4) {
+					s.Groups = r.Range(1, 3)
+				}
 				p.Synth = &s
 				cols, pk, _ = s.Build()
 				nrows = s.N
@@ -108,6 +112,9 @@ func init() {
 			}
 			if r.Chance(0.12) {
 				p.EmptySide = Pick(r, []string{"first", "second", "both"})
+			}
+			if r.Chance(0.15) {
+				p.Fault = &Fault{Op: "get", Prefix: Pick(r, []string{"blkidx/", "blkidx/", ""}), Nth: r.Range(1, 6)}
 			}
 			return p
 		},
@@ -270,6 +277,33 @@ func execC04(t *testing.T, raw json.RawMessage, res *Result) {
 	for k := range mB {
 		if _, ok := mA[k]; !ok {
 			want[k] = "removed"
+		}
+	}
+	if p.Fault != nil {
+		// a transient read error: the diff must report it, or be right
+		f := *p.Fault
+		f.Fired, f.seen = 0, 0
+		stB.Faults = []*Fault{&f}
+		fevs, ferr := runDiff(stA, stB, sumA, sumB)
+		stB.Faults = nil
+		if f.Fired > 0 {
+			res.fault("read_error", 1)
+			if ferr == nil {
+				got := map[string]string{}
+				for _, e := range fevs {
+					got[e.PK] = e.Kind
+				}
+				bad := len(got) != len(want)
+				for k, v := range want {
+					if got[k] != v {
+						bad = true
+					}
+				}
+				if bad {
+					res.Violate("read-error-wrong-diff", "a store read failed during the diff, no error was reported and the diff is wrong (%d events, model %d)", len(fevs), len(want))
+					return
+				}
+			}
 		}
 	}
 	evs, err := runDiff(stA, stB, sumA, sumB)
